@@ -14,4 +14,5 @@ Next == \/ n < MaxN /\ n' = n + 1 /\ m' = m
         \/ m < MaxM /\ m' = m + 1 /\ n' = n
 Spec == Init /\ [][Next]_<<n, m>>
 SplitOK == IsSplit(n, m, ExecRanges(n, m))
+LoopOK  == LoopRanges(n, m) = ExecRanges(n, m)      \* the closed form used by the trace specification is what the loop computes
 =============================================================================
